@@ -8,6 +8,8 @@ mod ops_claim;
 mod ops_fetch;
 mod ops_crash;
 mod ops_migrate;
+mod ops_action;
+mod ops_http;
 
 use std::io::{BufRead, Write};
 
@@ -55,6 +57,12 @@ fn serve() {
                 return r;
             }
             if let Some(r) = ops_claim::dispatch(&mut qst, &op, &fields) {
+                return r;
+            }
+            if let Some(r) = ops_http::dispatch(&op, &fields) {
+                return r;
+            }
+            if let Some(r) = ops_action::dispatch(&op, &fields) {
                 return r;
             }
             if let Some(r) = ops_checker::dispatch(&op, &fields) {
